@@ -241,7 +241,10 @@ func runEnv(r *vf.Run, c *tcase, e *envSpec, ei int) {
 			_ = l.WaitForPrefetchCompletion()
 		}()
 	}
-	if e.prefetchEarly {
+	// With the db store and an explicit root entry the decision is taken after the
+	// self-child probe below (see skipBG).
+	probeFirst := e.store == "db" && c.rootEntry
+	if e.prefetchEarly && !probeFirst {
 		startPrefetch() // fs.Mount: "go l.Prefetch(...)" before Verify
 	}
 	if err := l.Verify(c.built.TOCDigest); err != nil {
@@ -290,10 +293,33 @@ func runEnv(r *vf.Run, c *tcase, e *envSpec, ei int) {
 	}
 	w0.flush()
 
+	// Self-child probe. On the unchanged tree the db store gives the root of a tar with an
+	// explicit root entry a child "." that is the root itself (DESIGN.md section 6; judged by
+	// the walkers' absent-name lookups, key lookup:dot-self-child@db-root-entry). With that
+	// child present VerifiableReader.Cache() — i.e. Prefetch and BackgroundFetch — re-walks
+	// the whole tree 10001 levels deep before failing with "tree is too deep": seconds in the
+	// plain build, minutes under -race. The harness therefore decides on the observed state:
+	// if "." resolves, Prefetch/BackgroundFetch are only started for tiny trees in the plain
+	// build (so that the error class stays visible in the evidence) and skipped otherwise.
+	// Once the defect is repaired the probe answers ENOENT and nothing is skipped.
+	skipBG := false
+	if probeFirst {
+		if _, _, errno := root2.Lookup("."); errno == 0 {
+			r.Count("db_root_self_child_observed", 1)
+			if r.RaceBuild || len(c.paths) > 12 || !rngE.Chance(1, 2) {
+				skipBG = true
+				r.Count("prefetch_and_background_fetch_skipped(db self child)", 1)
+			}
+		}
+		if e.prefetchEarly && !skipBG {
+			startPrefetch()
+		}
+	}
+
 	// ---- phase A: healthy registry, walkers + background activity -------------------
 	stop := make(chan struct{})
 	var ctlWG sync.WaitGroup
-	if !e.prefetchEarly {
+	if !e.prefetchEarly && !skipBG {
 		d := time.Duration(rngE.Intn(2000)) * time.Microsecond
 		bgWG.Add(1)
 		go func() {
@@ -302,7 +328,7 @@ func runEnv(r *vf.Run, c *tcase, e *envSpec, ei int) {
 			startPrefetch()
 		}()
 	}
-	{
+	if !skipBG {
 		d := time.Duration(rngE.Intn(3000)) * time.Microsecond
 		bgWG.Add(1)
 		go func() {
@@ -444,7 +470,7 @@ func runEnv(r *vf.Run, c *tcase, e *envSpec, ei int) {
 		r.Count("prefetch_errors", 1)
 		r.Distinct("prefetch_errors("+e.store+")", classify(s))
 	}
-	if len(er.bgErrs) == 0 {
+	if len(er.bgErrs) == 0 && !skipBG {
 		r.Count("background_fetch_completed", 1)
 	}
 	r.Distinct("stores", e.store)
